@@ -9,15 +9,18 @@ abbrev Row := List Val
 inductive Err | valueError | keyError | other
 deriving Repr, DecidableEq
 
-/-- which of the three repairs (F2, F3, F4 of DESIGN §5) are present in the code being modelled -/
+/-- which of the repairs (F2, F3, F4 of DESIGN §5; round 3: single-int `iloc` label, slices own their data) are present
+in the code being modelled -/
 structure Cfg where
   syncParent : Bool        -- `_update_parent` refreshes the parent's positional `_data`
   overwriteSetter : Bool   -- `FEMAttributes.overwrite` goes through the `data` setter
   rebuildIndex : Bool      -- `id2index` is rebuilt when the frame changes
+  ilocLabel : Bool := true      -- `a.iloc[k]` (one int) is labelled with the id stored at `k` (upstream: with `k` itself)
+  sliceOwnsData : Bool := true  -- a slice copies its rows (upstream: `_data` may be a view of the parent's block)
 deriving Repr, DecidableEq
 
-def Cfg.current : Cfg := ⟨false, false, false⟩   -- the pinned upstream commit
-def Cfg.fixed : Cfg := ⟨true, true, true⟩
+def Cfg.current : Cfg := ⟨false, false, false, false, false⟩   -- the pinned upstream commit
+def Cfg.fixed : Cfg := ⟨true, true, true, true, true⟩
 
 structure State where
   ids : List Id
@@ -138,6 +141,145 @@ def step (cfg : Cfg) (s : State) : Op → State
   | .overwrite v => match overwrite cfg s v with | .ok t => t | .error _ => s
   | .ilocWrite p v => match ilocWrite cfg s p v with | .ok t => t | .error _ => s
   | .overwriteIds i v => match overwriteIds s i v with | .ok t => t | .error _ => s
+
+/-- the `Except` behind `step` (same functions; `step` maps an error to "state unchanged") -/
+def stepE (cfg : Cfg) (s : State) : Op → Except Err State
+  | .setData v => setData s v
+  | .update i r true => updateOverwrite cfg s i r
+  | .update i r false => updateAppend s i r
+  | .locWrite sel v => locWrite cfg s sel v
+  | .overwrite v => overwrite cfg s v
+  | .ilocWrite p v => ilocWrite cfg s p v
+  | .overwriteIds i v => overwriteIds s i v
+
+/-! ### histories with references retained by the caller
+
+A slice `c = a.loc[sel]` / `a.iloc[pos]` is itself an attribute (a copy of the selected rows, keyed by the selected
+ids) that remembers its parent OBJECT.  The caller may keep it, update the parent in between, and write through
+it later: `c.data = v` / `c.update(ids, rows, allow_overwrite=True)` change the slice and then `_update_parent`
+writes the slice's frame into the parent's frame **by id, against the parent as it is at that moment**.
+Read-only references the caller keeps (the array returned by `.data`, the `data_frame`, pieces of it) are counted
+but have no effect. -/
+
+/-- `a.loc[sel]` : the rows selected by id, as a new attribute (`generate_id2index` inherited) -/
+def take (s : State) (sel : List Id) : Except Err State :=
+  match sel.mapM (lookupRow s.ids s.frame) with
+  | none => .error .keyError
+  | some rows => .ok ⟨sel, rows, rows, s.id2index.map fun _ => enumIds sel⟩
+
+/-- `a.iloc[pos]` -/
+def takeI (s : State) (pos : List Nat) : Except Err State :=
+  match pos.mapM (fun k => s.ids[k]?) with
+  | none => .error .keyError
+  | some sel => take s sel
+
+/-- `_update_parent` of a slice `c` on the parent `p` as it is now: `p.frame.loc[c.ids] = c.frame` -/
+def writeBack (cfg : Cfg) (p c : State) : Except Err State := locWrite cfg p c.ids c.frame
+
+structure Hist where
+  cur : State            -- the attribute
+  held : List State      -- slices of it the caller still holds (oldest first)
+  refs : Nat             -- read-only references the caller still holds (`.data`, `.data_frame`, pieces of it)
+  /-- upstream only (`sliceOwnsData = false`), parallel to `held`: `some pos` when the slice's positional `_data` is a
+  live view of rows `pos` of the parent's frame block (pandas served the key as a view).  Always `none` in the repaired code. -/
+  vws : List (Option (List Nat)) := []
+deriving Repr, DecidableEq
+
+inductive HOp
+  | pub (op : Op)                                        -- a public update of the attribute itself
+  | keepRef                                              -- keep what `.data` / `.data_frame` returned
+  | take (sel : List Id)                                 -- keep `a.loc[sel]`
+  | takeI (pos : List Nat)                               -- keep `a.iloc[pos]` (a list: pandas copies the rows)
+  | heldSet (k : Nat) (v : List Row)                     -- `held[k].data = v`
+  | heldUpdate (k : Nat) (ids : List Id) (rows : List Row)   -- `held[k].update(ids, rows, allow_overwrite=True)`
+  | drop (k : Nat)                                       -- forget a slice
+  | takeI1 (k : Nat)                                     -- keep `a.iloc[k]`, ONE int
+  | takeView (pos : List Nat)                            -- keep `a.iloc[i:j]` / a mask / an identity take: keys pandas serves as views
+deriving Repr, DecidableEq
+
+/-- `a.iloc[k]` with one int.  Upstream labelled the slice with the key (`ids = [key]`), i.e. with the POSITION. -/
+def takeI1 (cfg : Cfg) (s : State) (k : Nat) : Except Err State :=
+  if cfg.ilocLabel then takeI s [k]
+  else match s.frame[k]? with
+    | none => .error .keyError
+    | some r => .ok ⟨[k], [r], [r], s.id2index.map fun _ => enumIds [k]⟩
+
+def severAll (h : Hist) : Hist := { h with vws := h.vws.map fun _ => none }
+
+/-- after an IN-PLACE write into the parent's frame (`_update_parent`).  Upstream: a slice whose `_data` is a view of the
+parent's block shows the new rows positionally while its own frame (a copy) does not; when another pandas reference to the
+block is alive copy-on-write copies the block first and the views stay behind (simplified: any retained reference counts). -/
+def refreshAliases (cfg : Cfg) (h : Hist) : Hist :=
+  if cfg.sliceOwnsData then h
+  else if h.refs ≠ 0 then severAll h
+  else { h with held := List.zipWith (fun c a => match a with
+      | none => c
+      | some pos => { c with data := pos.filterMap fun k => h.cur.frame[k]? }) h.held (h.vws ++ h.held.map fun _ => none) }
+
+/-- the slice is changed first (its own setter), then written back; when the write-back fails (an id of the slice
+is not an id of the parent) the slice stays changed and the parent is untouched — as in the code -/
+def heldApply (cfg : Cfg) (h : Hist) (k : Nat) (f : State → Except Err State) : Option Err × Hist :=
+  match h.held[k]? with
+  | none => (some .keyError, h)
+  | some c =>
+    match f c with
+    | .error e => (some e, h)
+    | .ok c' =>
+      let h' := { h with held := h.held.set k c', vws := h.vws.set k none }
+      match writeBack cfg h.cur c' with
+      | .error e => (some e, h')
+      | .ok p' => (none, refreshAliases cfg { h' with cur := p' })
+
+def hstepE (cfg : Cfg) (h : Hist) : HOp → Option Err × Hist
+  | .pub op =>
+    match stepE cfg h.cur op with
+    | .error e => (some e, h)
+    | .ok t =>
+      match op with
+      -- `overwrite(name, data, ids=…)` puts a NEW object into the collection: the slices held belong to the old one
+      | .overwriteIds _ _ => (none, { h with cur := t, held := [], vws := [] })
+      -- written in place into the frame
+      | .locWrite _ _ => (none, refreshAliases cfg { h with cur := t })
+      | .ilocWrite _ _ => (none, refreshAliases cfg { h with cur := t })
+      -- the frame is replaced by a new one
+      | _ => (none, severAll { h with cur := t })
+  | .keepRef => (none, { h with refs := h.refs + 1 })
+  | .take sel => match take h.cur sel with
+    | .error e => (some e, h)
+    | .ok c => (none, { h with held := h.held ++ [c], vws := h.vws ++ [none] })
+  | .takeI pos => match takeI h.cur pos with
+    | .error e => (some e, h)
+    | .ok c => (none, { h with held := h.held ++ [c], vws := h.vws ++ [none] })
+  | .takeI1 k => match takeI1 cfg h.cur k with
+    | .error e => (some e, h)
+    | .ok c => (none, { h with held := h.held ++ [c], vws := h.vws ++ [none] })
+  | .takeView pos => match takeI h.cur pos with
+    | .error e => (some e, h)
+    | .ok c => (none, { h with held := h.held ++ [c], vws := h.vws ++ [if cfg.sliceOwnsData then none else some pos] })
+  | .heldSet k v => heldApply cfg h k (fun c => setData c v)
+  | .heldUpdate k i r => heldApply cfg h k (fun c => updateOverwrite cfg c i r)
+  | .drop k => (none, { h with held := h.held.eraseIdx k, vws := h.vws.eraseIdx k })
+
+def hstep (cfg : Cfg) (h : Hist) (op : HOp) : Hist := (hstepE cfg h op).2
+
+/-! ### collections (`FEMAttributes`): every attribute has its own ids, in its own order -/
+
+/-- position of an id in the attribute's own storage order -/
+def posOf : List Id → Id → Option Nat
+  | [], _ => none
+  | a :: t, i => if a = i then some 0 else (posOf t i).map (· + 1)
+
+/-- `FEMAttributes.filter_with_ids(sel)` / `extract_dict(sel)`: every attribute is filtered by id on its OWN index -/
+def collFilter (c : List State) (sel : List Id) : Option (List (List Row)) := c.mapM fun s => filterWithIds s sel
+/-- `get_data_length()`: the common length, `none` (ValueError) when the lengths differ -/
+def collLength : List State → Option Nat
+  | [] => none
+  | s :: t => if t.all (fun u => u.ids.length == s.ids.length) then some s.ids.length else none
+/-- `set_attribute_data(key, data)`: a new attribute over the ids of the FIRST attribute, in its order -/
+def collSetAttr (c : List State) (v : List Row) : Except Err State :=
+  match c with
+  | [] => .error .other
+  | s :: _ => if collLength c = none then .error .valueError else mk s.ids v false
 
 /-- the two views describe the same table, and the id→position map is the enumeration of ids -/
 def InvB (s : State) : Bool :=
